@@ -52,13 +52,19 @@ type Conn struct {
 	Budget        *int // optional operation budget shared with the harness
 }
 
-func NewConn(s Script) *Conn { return &Conn{S: s, ClosedAt: -1} }
+// OnNewConn is called whenever a scripted connection (a new case) is created.
+var OnNewConn = func() {}
+
+func NewConn(s Script) *Conn { OnNewConn(); return &Conn{S: s, ClosedAt: -1} }
 
 var ErrClosed = errors.New("use of closed network connection")
 
 // OnTransport is called at every transport operation (the harness resets the
 // loop-iteration budget there).
 var OnTransport = func() {}
+
+// OnDelivered is called with the number of input bytes a Read handed over.
+var OnDelivered = func(n int) {}
 
 func (c *Conn) Read(p []byte) (int, error) {
 	// A Read that only repeats the end-of-stream report is not progress: the
@@ -104,6 +110,7 @@ func (c *Conn) Read(p []byte) (int, error) {
 	}
 	copy(p, c.S.Input[c.pos:c.pos+n])
 	c.pos += n
+	OnDelivered(n)
 	return n, nil
 }
 
